@@ -289,4 +289,162 @@ Proof.
   destruct H2 as [_ Hre]. rewrite (Hin T1 (closed_not_est _ _ E)) in Hre. inversion Hre.
 Qed.
 
+
+(* ------------------------------------------------------------------ send_tx_queue without an expired timer:
+   the state is kept and the Ignoring phase is not entered *)
+Definition pq (s s' : vsock) : Prop :=
+  v_state s' = v_state s /\ (ign (v_recovery s) = None -> ign (v_recovery s') = None).
+Lemma pq_refl : forall s, pq s s. Proof. intro s. split; auto. Qed.
+Lemma pq_trans : forall a b c, pq a b -> pq b c -> pq a c.
+Proof. intros a b c [A1 A2] [B1 B2]. split; [congruence | auto]. Qed.
+Lemma pq_same : forall s s' : vsock, v_state s' = v_state s -> v_recovery s' = v_recovery s -> pq s s'.
+Proof. intros s s' E R. split; [exact E | rewrite R; auto]. Qed.
+Lemma sd_frame_pq : forall s s' : vsock, sd_frame s s' -> pq s s'.
+Proof. intros s s' (_ & _ & _ & R & _ & _ & _ & _ & _ & St & _). apply pq_same; assumption. Qed.
+
+Lemma send_data_pq : forall (s : vsock) h f, stk pq s (send_data s h f).
+Proof.
+  intros s h f. pose proof (send_data_spec s h f) as H.
+  destruct (send_data s h f) as [s1 r|s1 e|]; cbn [stk]; [|exact I|exact I].
+  destruct r; [destruct H as [Hf _] | destruct H as [[Hf _] _] | destruct H as [[Hf _] _]]; apply sd_frame_pq; exact Hf.
+Qed.
+
+Lemma recovery_loop_pq : forall items (s : vsock) h mss0 st, stk pq s (recovery_loop items s h mss0 st).
+Proof.
+  induction items as [|f rest IH]; intros s h mss0 st; cbn [recovery_loop]; [apply pq_refl|].
+  destruct (negb _); [apply pq_refl|].
+  destruct (_ && negb (sg_lost _)); [apply IH|].
+  destruct (_ && negb (sg_sacks_after _)); [apply pq_refl|].
+  pose proof (send_data_pq s h f) as Hd.
+  destruct (send_data s h f) as [s1 r|s1 e|]; cbn [stk] in *; auto.
+  destruct r; cbn [stk]; auto.
+  match goal with |- stk pq s (recovery_loop rest s1 h mss0 ?st') => pose proof (IH s1 h mss0 st') as H2;
+    destruct (recovery_loop rest s1 h mss0 st') end; cbn [stk] in *; auto. eapply pq_trans; eauto.
+Qed.
+
+Lemma new_data_loop_pq : forall items (s : vsock) h remaining, stk pq s (new_data_loop items s h remaining).
+Proof.
+  induction items as [|f rest IH]; intros s h remaining; cbn [new_data_loop]; [apply pq_refl|].
+  destruct (_ <? _); [apply pq_refl|].
+  pose proof (send_data_pq s h f) as Hd.
+  destruct (send_data s h f) as [s1 r|s1 e|]; cbn [stk] in *; auto.
+  destruct r; cbn [stk]; auto.
+  match goal with |- stk pq s (new_data_loop rest s1 h ?rem') => pose proof (IH s1 h rem') as H2;
+    destruct (new_data_loop rest s1 h rem') end; cbn [stk] in *; auto. eapply pq_trans; eauto.
+Qed.
+
+Ltac pq_rec := split; [unfold set_recovering; vsimpl_goal; reflexivity
+                      | intros _; unfold set_recovering, ign; vsimpl_goal; reflexivity].
+
+Lemma stq_pq : forall s : vsock,
+  timer_expired (v_t_retransmit s) (v_now s) = false -> stk pq s (send_tx_queue cci s).
+Proof.
+  intros s Hne. unfold send_tx_queue. destruct (v_transport_pending s); [apply pq_refl|].
+  cbv zeta. rewrite Hne. cbn [sbind].
+  destruct (0 <? _); [apply pq_refl|]. destruct (ss_segs (v_segs s)) eqn:Esg; [apply pq_refl|].
+  apply (stk_bind pq pq_trans).
+  - destruct (rv_phase (v_recovery s)) as [x|d|rc] eqn:Eph; try apply pq_refl.
+    apply (stk_bind pq pq_trans); [apply recovery_loop_pq|].
+    intros s2 [st early]. cbv beta iota zeta.
+    destruct early; [cbn [stk]; pq_rec|].
+    match goal with |- stk pq _ (match our_fin_if_unacked (v_state ?y) with _ => _ end) =>
+      assert (F3 : pq s2 y); [|revert F3; generalize y; intros sy F3] end.
+    { destruct (_ <? _); [|pq_rec]. destruct (rc_recalc _); [pq_rec|]. destruct (0 <? _); pq_rec. }
+    destruct (our_fin_if_unacked _); [destruct (_ =? _)|]; cbn [stk]; auto.
+    split; [unfold set_recovering; vsimpl_goal; exact (proj1 F3)
+           | intros _; unfold set_recovering, ign; vsimpl_goal; reflexivity].
+  - intros s1 ret. destruct ret; [apply pq_refl|].
+    apply (stk_bind pq pq_trans); [apply new_data_loop_pq|].
+    intros s2 tl. destruct tl as [[sq sz]|]; [|apply pq_refl].
+    destruct (pop_mtu_probe _ _) as [segs' popped]. destruct popped; cbn [stk]; [|exact I].
+    apply pq_same; reflexivity.
+Qed.
+
+Lemma split_state : forall (s s' : vsock) u,
+  split_tx_queue_into_segments cci s = SOk s' u -> v_state s' = v_state s.
+Proof.
+  intros s s' u H. unfold split_tx_queue_into_segments in H.
+  destruct (_ =? 0); [inversion H; reflexivity|].
+  match type of H with context [is_remote_fin_or_later (v_state ?x)] => set (s1 := x) in * end.
+  assert (F1 : v_state s1 = v_state s).
+  { subst s1. destruct (_ && _); [|reflexivity].
+    destruct (grow _ _) as [tx1 g]. destruct g; [destruct (wake_writer tx1)|]; reflexivity. }
+  clearbody s1.
+  destruct (is_remote_fin_or_later _); [inversion H; subst; exact F1|].
+  destruct (pop_expired_mtu_probe _ _ _) as [segs1 pe].
+  destruct pe.
+  - destruct (seq_gt _ _);
+      (destruct (_ <? _); [discriminate|]);
+      (destruct (segment_loop _ _ _ _ _ _) as [[[ss' segs'] rem']|]; [|discriminate]);
+      inversion H; subst; exact F1.
+  - inversion H; subst; exact F1.
+  - destruct (_ <? _); [discriminate|].
+    destruct (segment_loop _ _ _ _ _ _) as [[[ss' segs'] rem']|]; [|discriminate].
+    inversion H; subst; exact F1.
+Qed.
+
+(* ------------------------------------------------------------------ the whole poll *)
+Variable now r0 : Z.
+Hypothesis r0_nn : 0 <= r0.
+
+Definition BJ (s : vsock) : Prop := B now s /\ J r0 false now s.
+
+Lemma KJ_BJ : forall s s' : vsock, KJ s s' -> BJ s -> BJ s'.
+Proof. intros s s' K [H1 H2]. exact (K now r0 false r0_nn H1 H2). Qed.
+
+Lemma BJ_ne : forall s : vsock, BJ s -> timer_expired (v_t_retransmit s) (v_now s) = false.
+Proof.
+  intros s [(_ & Hn & _) HJ]. rewrite Hn. fold (texp s now).
+  destruct (texp s now) eqn:E; [|reflexivity].
+  destruct HJ as [_ _ A3|_ A2|p _ _ A3 _ _ _]; [symmetry; apply A3; exact E | congruence | discriminate A3].
+Qed.
+
+Definition QPt (s : vsock) : Prop := True.
+Definition QEt (s : vsock) (e : verror) : Prop := True.
+Definition ASa (s : vsock) : Prop := BJ s /\ Sa s.
+Definition BSn (s : vsock) : Prop := BJ s /\ Sn s.
+
+Lemma stH_of : forall X (S : vsock -> Prop) (s : vsock) (m : step X),
+  (forall s', fpr s s' -> S s -> S s') ->
+  BJ s -> S s -> stRk KJ s m -> sfp s m -> stH QPt QEt (fun s => BJ s /\ S s) m.
+Proof.
+  intros X S s m Sf Hb Hs Hk Hf. destruct m as [s' a|s' e|]; cbn [stH stRk sfp] in *; try exact I.
+  split; [intros _; exact I|]. intros _. split; [eapply KJ_BJ; eauto | apply Sf; assumption].
+Qed.
+
+Theorem poll_loop_Sn : forall fuel (s s' : vsock),
+  ASa s -> poll_loop cci fuel s = (s', PollPending) -> v_transport_pending s' = true \/ Sn s'.
+Proof.
+  intros fuel s s' HA H.
+  refine (_ (poll_loop_H cci ASa ASa BSn BSn BSn BSn QPt QEt _ _ _ _ _ _ _ _ _ _ _ fuel s s' PollPending HA H)).
+  - cbn [resH]. intros [[T _]|(sb & [_ Hs] & _ & _ & _ & ->)]; [left; exact T|right].
+    eapply Sn_fpr; [apply poll_tail_fpr | exact Hs].
+  - intros x [Hb Hs]. split; [eapply KJ_BJ; [apply poll_start_KJ | exact Hb]|].
+    apply (Sa_keep x); try reflexivity; try apply Z.le_refl; exact Hs.
+  - intros x [Hb Hs] _. apply (stH_of _ Sa x); auto; [intros; eapply Sa_fpr; eauto | apply maybe_send_syn_ack_KJ | apply maybe_send_syn_ack_fpr].
+  - intros x [Hb Hs] _. apply (stH_of _ Sa x); auto; [intros; eapply Sa_fpr; eauto | apply send_ack_KJ | apply send_ack_fpr].
+  - intros x [Hb Hs] _. pose proof (process_all_KJ cci x) as K. pose proof (pim_Sa_Sn x Hs) as P.
+    destruct (process_all_incoming_messages cci x) as [x' a|x' e|]; cbn [stH stRk] in *; try exact I.
+    split; [intros _; exact I|]. intro T. split; [eapply KJ_BJ; eauto | apply P; exact T].
+  - intros x rx1 fb w [Hb Hs] _ _. split; [eapply KJ_BJ; [apply rx_flush_KJ | exact Hb]|].
+    apply (Sn_keep x); try reflexivity; try apply Z.le_refl; exact Hs.
+  - intros x _. exact I.
+  - intros x [Hb Hs] _. pose proof (split_KJ cci x) as K. pose proof (split_state x) as St.
+    pose proof (split_tx_queue_into_segments_qb cci x) as Q.
+    destruct (split_tx_queue_into_segments cci x) as [x' a|x' e|]; cbn [stB stRk stR] in *; try exact I.
+    split; [eapply KJ_BJ; eauto|]. destruct Q as (_ & _ & R & _).
+    apply (Sn_keep x); [rewrite (St x' a eq_refl); apply Z.le_refl | exact R | exact Hs].
+  - intros x [Hb Hs] _ _. pose proof (send_tx_queue_KJ cci x) as K. pose proof (stq_pq x (BJ_ne x Hb)) as P.
+    destruct (send_tx_queue cci x) as [x' a|x' e|]; cbn [stQ stRk stk] in *; try exact I.
+    assert (G : BSn x').
+    { split; [eapply KJ_BJ; eauto|]. destruct P as [P1 P2]. destruct Hs as [H1 H2]. split; [rewrite P1; exact H1|].
+      intro E. apply P2. apply H2. congruence. }
+    split; [intros _; split; [exact (proj1 G) | apply Sn_Sa; exact (proj2 G)]|].
+    split; [intros _ _; exact I | intros _ _; exact G].
+  - intros x [Hb Hs] _. split; [eapply KJ_BJ; [apply transition_to_fin_wait_1_KJ | exact Hb]|].
+    eapply Sn_fpr; [apply transition_fpr | exact Hs].
+  - intros x [Hb Hs] _. apply (stH_of _ Sn x); auto; [intros; eapply Sn_fpr; eauto | apply maybe_send_fin_KJ | apply maybe_send_fin_fpr].
+  - intros x [Hb Hs] _. apply (stH_of _ Sn x); auto; [intros; eapply Sn_fpr; eauto | apply maybe_send_ack_KJ | apply maybe_send_ack_fpr].
+Qed.
+
 End WithCC.
